@@ -74,6 +74,7 @@ fn c02_direct<const N: usize>() {
             assert!(f64::from_bits(LAST_ARG).to_bits() == x.to_bits(), "[spec] the piece is evaluated at x itself");
         }
     }
+    kani::cover!(true, "[cover] the end of the harness is reachable (assumptions are satisfiable)");
 }
 #[kani::proof] #[kani::unwind(3)] fn c02_direct_n1() { c02_direct::<1>() }
 #[kani::proof] #[kani::unwind(4)] fn c02_direct_n2() { c02_direct::<2>() }
@@ -117,6 +118,7 @@ fn c03_new<const N: usize>() {
     let segs = wf_segments::<N>();
     let ev = PiecewiseEvaluator::new(&segs[..]);
     assert!(inv_holds(&ev, &segs), "[inv] new() establishes the representation invariant");
+    kani::cover!(true, "[cover] the end of the harness is reachable (assumptions are satisfiable)");
 }
 
 /// Inductive step: ANY state satisfying I, ANY f64 query (NaN included).
@@ -137,13 +139,17 @@ fn c03_step<const N: usize>(allow_nan: bool) {
     if !allow_nan { kani::assume(!x.is_nan()); }
     unsafe { EVAL_CALLS = 0; }
     let r = ev.evaluate(x);
-    let want = sel(&segs, x);
-    assert!(r == (want as u32 + 1) as f64, "[spec] evaluator answers with the piece direct evaluation selects");
-    unsafe {
-        assert!(EVAL_CALLS == 1, "[spec] exactly one piece is evaluated");
-        assert!(same_bits(f64::from_bits(LAST_ARG), x), "[spec] the piece is evaluated at x itself");
+    if !x.is_nan() {
+        // what a NaN query returns is not specified (C16 only requires that it returns and harms nothing)
+        let want = sel(&segs, x);
+        assert!(r == (want as u32 + 1) as f64, "[spec] evaluator answers with the piece direct evaluation selects");
+        unsafe {
+            assert!(EVAL_CALLS == 1, "[spec] exactly one piece is evaluated");
+            assert!(LAST_ARG == x.to_bits(), "[spec] the piece is evaluated at x itself");
+        }
     }
     assert!(inv_holds(&ev, &segs), "[inv] evaluate() preserves the representation invariant");
+    kani::cover!(true, "[cover] the end of the harness is reachable (assumptions are satisfiable)");
 }
 
 /// Behavioural cross-check through the public API only: K queries from a fresh evaluator.
@@ -155,11 +161,14 @@ fn c03_history<const N: usize, const K: usize>(allow_nan: bool) {
         let x: f64 = kani::any();
         if !allow_nan { kani::assume(!x.is_nan()); }
         let r = ev.evaluate(x);
-        let want = sel(&segs, x);
-        assert!(r == (want as u32 + 1) as f64, "[spec] every query of a history is answered with the piece direct evaluation selects");
-        unsafe { assert!(same_bits(f64::from_bits(LAST_ARG), x), "[spec] the piece is evaluated at x itself"); }
+        if !x.is_nan() {
+            let want = sel(&segs, x);
+            assert!(r == (want as u32 + 1) as f64, "[spec] every non-NaN query of a history is answered with the piece direct evaluation selects");
+            unsafe { assert!(LAST_ARG == x.to_bits(), "[spec] the piece is evaluated at x itself"); }
+        }
         k += 1;
     }
+    kani::cover!(true, "[cover] the end of the harness is reachable (assumptions are satisfiable)");
 }
 #[kani::proof] #[kani::unwind(5)] fn c03_hist_n2_k3() { c03_history::<2, 3>(false) }
 #[kani::proof] #[kani::unwind(5)] fn c03_hist_n3_k3() { c03_history::<3, 3>(false) }
@@ -186,4 +195,374 @@ fn c03_history<const N: usize, const K: usize>(allow_nan: bool) {
 fn c16_evaluator_empty_mustpanic() {
     let segs: [Segment<Tag>; 0] = [];
     let _ = PiecewiseEvaluator::new(&segs[..]);
+}
+
+// =============================================================================================
+// C12: evaluate_v
+// =============================================================================================
+static mut PULLED: u32 = 0;
+struct CountingIter<const K: usize> { xs: [f64; K], i: usize }
+impl<const K: usize> Iterator for CountingIter<K> {
+    type Item = f64;
+    fn next(&mut self) -> Option<f64> {
+        if self.i < K {
+            let v = self.xs[self.i];
+            self.i += 1;
+            unsafe { PULLED += 1; }
+            Some(v)
+        } else {
+            None
+        }
+    }
+}
+
+fn c12_evaluate_v<const N: usize, const K: usize>(allow_nan: bool) {
+    let segs = wf_segments::<N>();
+    let pw = Piecewise { segments: segs.to_vec() };
+    let mut xs = [0.0f64; K];
+    let mut k = 0;
+    while k < K {
+        xs[k] = kani::any();
+        if !allow_nan { kani::assume(!xs[k].is_nan()); }
+        k += 1;
+    }
+    unsafe { PULLED = 0; EVAL_CALLS = 0; }
+    let mut it = pw.evaluate_v(CountingIter::<K> { xs, i: 0 });
+    unsafe { assert!(EVAL_CALLS == 0, "[spec] lazy: nothing is evaluated before the first output is requested"); }
+    let mut running_max = f64::NEG_INFINITY;
+    let mut nondecreasing = true;
+    let mut k = 0;
+    while k < K {
+        let out = it.next();
+        assert!(out.is_some(), "[spec] one output per argument");
+        let r = out.unwrap();
+        if !allow_nan {
+            if k > 0 && xs[k] < xs[k - 1] { nondecreasing = false; }
+            if xs[k] > running_max { running_max = xs[k]; }
+            let want = sel(&segs, running_max);
+            assert!(r == (want as u32 + 1) as f64, "[spec] argument k is evaluated with the piece direct evaluation selects for the running maximum");
+            if nondecreasing {
+                assert!(want == sel(&segs, xs[k]), "[spec] non-decreasing arguments: same piece as pointwise evaluation");
+            }
+            unsafe {
+                assert!(LAST_ARG == xs[k].to_bits(), "[spec] the piece is evaluated at the argument itself");
+                assert!(EVAL_CALLS == k as u32 + 1, "[spec] lazy and in order: exactly k+1 evaluations after k+1 outputs");
+                assert!(PULLED == k as u32 + 1, "[spec] lazy: exactly k+1 arguments pulled after k+1 outputs");
+            }
+        }
+        k += 1;
+    }
+    assert!(it.next().is_none(), "[spec] no output beyond the arguments");
+    kani::cover!(true, "[cover] the end of the harness is reachable (assumptions are satisfiable)");
+}
+#[kani::proof] #[kani::unwind(5)] fn c12_n1_k3() { c12_evaluate_v::<1, 3>(false) }
+#[kani::proof] #[kani::unwind(5)] fn c12_n2_k3() { c12_evaluate_v::<2, 3>(false) }
+#[kani::proof] #[kani::unwind(5)] fn c12_n3_k3() { c12_evaluate_v::<3, 3>(false) }
+#[kani::proof] #[kani::unwind(6)] fn c12_n4_k3() { c12_evaluate_v::<4, 3>(false) }
+#[kani::proof] #[kani::unwind(6)] fn c12_n3_k4() { c12_evaluate_v::<3, 4>(false) }
+#[kani::proof] #[kani::unwind(6)] fn c12_n4_k4() { c12_evaluate_v::<4, 4>(false) }
+#[kani::proof] #[kani::unwind(5)] fn c16_evaluate_v_anyf64_n3_k3() { c12_evaluate_v::<3, 3>(true) }
+#[kani::proof]
+#[kani::should_panic]
+fn c16_evaluate_v_empty_mustpanic() {
+    let pw: Piecewise<Tag> = Piecewise { segments: Vec::new() };
+    let mut it = pw.evaluate_v(CountingIter::<1> { xs: [0.0], i: 0 });
+    let _ = it.next();
+}
+
+// =============================================================================================
+// C13: &f + &g, &f - &g on merged breakpoints.  PTag: `&a + &b` = pair code, `&a - &b` = pair code + 1000.
+// =============================================================================================
+#[derive(Clone, Copy, Debug, PartialEq)]
+pub struct PTag(pub u32);
+impl<'a, 'b> Add<&'b PTag> for &'a PTag {
+    type Output = PTag;
+    fn add(self, o: &'b PTag) -> PTag { PTag(self.0 * 16 + o.0) }
+}
+impl<'a, 'b> Sub<&'b PTag> for &'a PTag {
+    type Output = PTag;
+    fn sub(self, o: &'b PTag) -> PTag { PTag(self.0 * 16 + o.0 + 1000) }
+}
+fn wf_psegments<const N: usize>() -> [Segment<PTag>; N] {
+    let mut segs = [Segment { end: 0.0, poly: PTag(0) }; N];
+    let mut i = 0;
+    while i < N {
+        let e: f64 = kani::any();
+        kani::assume(!e.is_nan());
+        if i > 0 { kani::assume(segs[i - 1].end <= e); }
+        segs[i] = Segment { end: e, poly: PTag(i as u32 + 1) };
+        i += 1;
+    }
+    segs
+}
+fn psel(segs: &[Segment<PTag>], x: f64) -> usize {
+    let mut i = 0;
+    while i < segs.len() {
+        if segs[i].end > x { return i; }
+        i += 1;
+    }
+    segs.len() - 1
+}
+fn c13_merge<const N: usize, const M: usize>(sub: bool) {
+    let f = wf_psegments::<N>();
+    let g = wf_psegments::<M>();
+    let pf = Piecewise { segments: f.to_vec() };
+    let pg = Piecewise { segments: g.to_vec() };
+    let r = if sub { &pf - &pg } else { &pf + &pg };
+    let rs = &r.segments;
+    assert!(rs.len() >= 1, "[spec] result is non-empty");
+    assert!(rs.len() <= N + M - 1, "[spec] at most len(f)+len(g)-1 pieces");
+    let mut i = 0;
+    while i < rs.len() {
+        let e = rs[i].end;
+        assert!(!e.is_nan(), "[spec] result breakpoints are not NaN");
+        if i > 0 { assert!(rs[i - 1].end <= e, "[spec] result breakpoints are non-decreasing"); }
+        let mut found = false;
+        let mut j = 0;
+        while j < N { if f[j].end.to_bits() == e.to_bits() { found = true; } j += 1; }
+        let mut j = 0;
+        while j < M { if g[j].end.to_bits() == e.to_bits() { found = true; } j += 1; }
+        assert!(found, "[spec] every result breakpoint is (bit for bit) a breakpoint of f or g");
+        i += 1;
+    }
+    let x: f64 = kani::any();
+    kani::assume(!x.is_nan());
+    let k = psel(&rs[..], x);
+    let want = (psel(&f[..], x) as u32 + 1) * 16 + (psel(&g[..], x) as u32 + 1) + if sub { 1000 } else { 0 };
+    assert!(rs[k].poly.0 == want, "[spec] at every x the result combines the piece of f and the piece of g that direct evaluation selects");
+    kani::cover!(true, "[cover] the end of the harness is reachable (assumptions are satisfiable)");
+}
+macro_rules! c13 { ($($name:ident, $n:expr, $m:expr, $sub:expr, $u:expr;)*) => { $( #[kani::proof] #[kani::unwind($u)] fn $name() { c13_merge::<$n, $m>($sub) } )* } }
+c13! {
+    c13_add_1_1, 1, 1, false, 4; c13_add_1_2, 1, 2, false, 5; c13_add_2_1, 2, 1, false, 5; c13_add_2_2, 2, 2, false, 6;
+    c13_add_1_3, 1, 3, false, 6; c13_add_3_1, 3, 1, false, 6; c13_add_2_3, 2, 3, false, 7; c13_add_3_2, 3, 2, false, 7; c13_add_3_3, 3, 3, false, 8;
+    c13_sub_1_1, 1, 1, true, 4; c13_sub_1_2, 1, 2, true, 5; c13_sub_2_1, 2, 1, true, 5; c13_sub_2_2, 2, 2, true, 6;
+    c13_sub_1_3, 1, 3, true, 6; c13_sub_3_1, 3, 1, true, 6; c13_sub_2_3, 2, 3, true, 7; c13_sub_3_2, 3, 2, true, 7; c13_sub_3_3, 3, 3, true, 8;
+    c13_add_4_4, 4, 4, false, 10; c13_sub_4_4, 4, 4, true, 10; c13_add_2_4, 2, 4, false, 8; c13_sub_4_2, 4, 2, true, 8;
+}
+#[kani::proof]
+#[kani::unwind(5)]
+#[kani::should_panic]
+fn c16_add_nan_end_mustpanic() {
+    let pf = Piecewise { segments: [Segment { end: f64::NAN, poly: PTag(1) }].to_vec() };
+    let pg = Piecewise { segments: [Segment { end: 1.0, poly: PTag(1) }].to_vec() };
+    let _ = &pf + &pg;
+}
+
+// =============================================================================================
+// C15 / C08(piecewise): scalar operations and derivative keep the number of pieces, their order and every
+// breakpoint; each piece receives the operation exactly once.  OpTag records what was applied to it.
+// =============================================================================================
+#[derive(Clone, Copy, Debug, PartialEq)]
+pub struct OpTag { pub id: u32, pub muls: u32, pub negs: u32, pub trans: u32, pub derivs: u32, pub scalar: u64 }
+impl Mul<f64> for OpTag {
+    type Output = OpTag;
+    fn mul(self, rhs: f64) -> OpTag { OpTag { muls: self.muls + 1, scalar: rhs.to_bits(), ..self } }
+}
+impl MulAssign<f64> for OpTag {
+    fn mul_assign(&mut self, rhs: f64) { self.muls += 1; self.scalar = rhs.to_bits(); }
+}
+impl Neg for OpTag {
+    type Output = OpTag;
+    fn neg(self) -> OpTag { OpTag { negs: self.negs + 1, ..self } }
+}
+impl Translate for OpTag {
+    fn translate(&mut self, v: f64) { self.trans += 1; self.scalar = v.to_bits(); }
+}
+impl HasDerivative for OpTag {
+    type DerivativeOf = OpTag;
+    fn derivative(&self) -> OpTag { OpTag { derivs: self.derivs + 1, ..*self } }
+}
+fn op_segments<const N: usize>() -> [Segment<OpTag>; N] {
+    // ends are arbitrary f64 here: these operations must not look at them at all
+    let z = OpTag { id: 0, muls: 0, negs: 0, trans: 0, derivs: 0, scalar: 0 };
+    let mut segs = [Segment { end: 0.0, poly: z }; N];
+    let mut i = 0;
+    while i < N {
+        let e: f64 = kani::any();
+        kani::assume(!e.is_nan());
+        // ids are symbolic (small) so that neighbouring pieces may be EQUAL: an operation that merges or skips
+        // "redundant" pieces is then visible
+        let id: u8 = kani::any();
+        kani::assume(id < 3);
+        segs[i] = Segment { end: e, poly: OpTag { id: id as u32 + 1, ..z } };
+        i += 1;
+    }
+    segs
+}
+fn check_ops<const N: usize>(orig: &[Segment<OpTag>; N], got: &[Segment<OpTag>], muls: u32, negs: u32, trans: u32, derivs: u32, scalar: u64) {
+    assert!(got.len() == N, "[spec] the number of pieces is unchanged");
+    let mut i = 0;
+    while i < N {
+        assert!(got[i].end.to_bits() == orig[i].end.to_bits(), "[spec] every breakpoint is bit-identical and in the same position");
+        let p = got[i].poly;
+        assert!(p.id == orig[i].poly.id, "[spec] pieces keep their order");
+        assert!(p.muls == muls && p.negs == negs && p.trans == trans && p.derivs == derivs, "[spec] the operation is applied to every piece exactly once (and nothing else is)");
+        if muls + trans > 0 { assert!(p.scalar == scalar, "[spec] with the given scalar"); }
+        i += 1;
+    }
+}
+fn c15_piecewise<const N: usize>(op: u8) {
+    let segs = op_segments::<N>();
+    let s: f64 = kani::any();
+    kani::assume(!s.is_nan());
+    let pw = Piecewise { segments: segs.to_vec() };
+    match op {
+        0 => { let r = pw * s; check_ops(&segs, &r.segments, 1, 0, 0, 0, s.to_bits()); }
+        1 => { let mut r = pw; r *= s; check_ops(&segs, &r.segments, 1, 0, 0, 0, s.to_bits()); }
+        2 => { let r = -pw; check_ops(&segs, &r.segments, 0, 1, 0, 0, 0); }
+        3 => { let mut r = pw; r.translate(s); check_ops(&segs, &r.segments, 0, 0, 1, 0, s.to_bits()); }
+        _ => { let r = pw.derivative(); check_ops(&segs, &r.segments, 0, 0, 0, 1, 0); }
+    }
+    kani::cover!(true, "[cover] the end of the harness is reachable (assumptions are satisfiable)");
+}
+macro_rules! c15 { ($($name:ident, $n:expr, $op:expr, $u:expr;)*) => { $( #[kani::proof] #[kani::unwind($u)] fn $name() { c15_piecewise::<$n>($op) } )* } }
+c15! {
+    c15_mul_n1, 1, 0, 4; c15_mul_n2, 2, 0, 5; c15_mul_n3, 3, 0, 6; c15_mul_n4, 4, 0, 7;
+    c15_mulassign_n1, 1, 1, 4; c15_mulassign_n2, 2, 1, 5; c15_mulassign_n3, 3, 1, 6; c15_mulassign_n4, 4, 1, 7;
+    c15_neg_n1, 1, 2, 4; c15_neg_n2, 2, 2, 5; c15_neg_n3, 3, 2, 6; c15_neg_n4, 4, 2, 7;
+    c15_translate_n1, 1, 3, 4; c15_translate_n2, 2, 3, 5; c15_translate_n3, 3, 3, 6; c15_translate_n4, 4, 3, 7;
+    c08_pwderiv_n1, 1, 4, 4; c08_pwderiv_n2, 2, 4, 5; c08_pwderiv_n3, 3, 4, 6; c08_pwderiv_n4, 4, 4, 7;
+}
+/// Segment-level operations (loop-free: complete).
+#[kani::proof]
+fn c15_segment_ops() {
+    let segs = op_segments::<1>();
+    let s: f64 = kani::any();
+    kani::assume(!s.is_nan());
+    let seg = segs[0];
+    let r = seg * s;
+    check_ops(&segs, &[r], 1, 0, 0, 0, s.to_bits());
+    let mut r = seg;
+    r *= s;
+    check_ops(&segs, &[r], 1, 0, 0, 0, s.to_bits());
+    let mut r = seg;
+    { let mut rr = &mut r; rr *= s; }
+    check_ops(&segs, &[r], 1, 0, 0, 0, s.to_bits());
+    let mut r = seg;
+    r.translate(s);
+    check_ops(&segs, &[r], 0, 0, 1, 0, s.to_bits());
+    let r = seg.derivative();
+    check_ops(&segs, &[r], 0, 0, 0, 1, 0);
+    kani::cover!(true, "[cover] the end of the harness is reachable (assumptions are satisfiable)");
+}
+
+// =============================================================================================
+// C11: piecewise integration wiring.  STag integrates to ITag{id,k}; ITag::evaluate(x) = k + id (exact on the small
+// integers used) and logs (id, x) so the harness sees which knot every piece received.
+// =============================================================================================
+#[derive(Clone, Copy, Debug, PartialEq)]
+pub struct STag(pub u32);
+#[derive(Clone, Copy, Debug, PartialEq)]
+pub struct ITag { pub id: u32, pub k: f64, pub trans: u32 }
+static mut ILOG_ID: [u32; 16] = [0; 16];
+static mut ILOG_X: [u64; 16] = [0; 16];
+static mut ILOG_N: usize = 0;
+impl Evaluate for ITag {
+    fn evaluate(&self, x: f64) -> f64 {
+        unsafe {
+            if ILOG_N < 16 { ILOG_ID[ILOG_N] = self.id; ILOG_X[ILOG_N] = x.to_bits(); }
+            ILOG_N += 1;
+        }
+        self.k + self.id as f64
+    }
+}
+impl Translate for ITag {
+    fn translate(&mut self, v: f64) { self.k += v; self.trans += 1; }
+}
+impl HasIntegral for STag {
+    type IntegralOf = ITag;
+    fn indefinite(&self) -> ITag { ITag { id: self.0, k: 0.0, trans: 0 } }
+    fn integral(&self, knot: Knot) -> ITag {
+        let mut indef = self.indefinite();
+        indef.translate(knot.y - indef.evaluate(knot.x));
+        indef
+    }
+}
+fn s_segments<const N: usize>() -> [Segment<STag>; N] {
+    let mut segs = [Segment { end: 0.0, poly: STag(0) }; N];
+    let mut i = 0;
+    while i < N {
+        let e: f64 = kani::any();
+        kani::assume(!e.is_nan());
+        segs[i] = Segment { end: e, poly: STag(i as u32 + 1) };
+        i += 1;
+    }
+    segs
+}
+/// expected log and result of the chain: piece i gets knot (end_{i-1}, F_{i-1}(end_{i-1})), piece 0 gets knot0
+fn check_chain<const N: usize>(segs: &[Segment<STag>; N], got: &[Segment<ITag>], first: usize, x0: f64, y0: f64) {
+    // `first` = index of the first piece that was integrated through a knot (0 for integral, 1 for indefinite)
+    assert!(got.len() == N, "[spec] same number of pieces");
+    let mut i = 0;
+    let mut log = 0usize;
+    while i < N {
+        assert!(got[i].end.to_bits() == segs[i].end.to_bits(), "[spec] same breakpoints, bit for bit, same order");
+        assert!(got[i].poly.id == segs[i].poly.0, "[spec] piece i is an antiderivative of piece i");
+        if i >= first {
+            // value of every piece at any x is y0 (k + id == y0): adjacent pieces agree at the interior breakpoints
+            assert!(got[i].poly.k + got[i].poly.id as f64 == y0, "[spec] adjacent pieces agree in value at the breakpoint; the first passes through the knot");
+            assert!(got[i].poly.trans == 1, "[spec] each piece is shifted exactly once");
+            let want_x = if i == first { x0 } else { segs[i - 1].end };
+            unsafe {
+                assert!(ILOG_ID[log] == segs[i].poly.0 && ILOG_X[log] == want_x.to_bits(), "[spec] piece i is anchored at the previous breakpoint (piece 0 at knot.x)");
+                assert!(ILOG_ID[log + 1] == segs[i].poly.0 && ILOG_X[log + 1] == segs[i].end.to_bits(), "[spec] the next knot is taken at this piece's own end");
+            }
+            log += 2;
+        }
+        i += 1;
+    }
+    unsafe { assert!(ILOG_N == log, "[spec] no other evaluations"); }
+}
+fn small_int() -> f64 { let v: i8 = kani::any(); kani::assume(v > -100 && v < 100); v as f64 }
+fn c11_integral<const N: usize>(which: u8) {
+    let segs = s_segments::<N>();
+    let x0: f64 = kani::any();
+    kani::assume(!x0.is_nan());
+    let y0 = small_int();
+    let knot = Knot { x: x0, y: y0 };
+    unsafe { ILOG_N = 0; }
+    match which {
+        0 => { let r = Piecewise { segments: segs.to_vec() }.integral(knot); check_chain(&segs, &r.segments, 0, x0, y0); }
+        1 => { let r: Vec<Segment<ITag>> = Segment::integral_iter_ref(segs.iter(), knot).collect(); check_chain(&segs, &r, 0, x0, y0); }
+        2 => { let r: Vec<Segment<ITag>> = Segment::integral_iter(segs.to_vec(), knot).collect(); check_chain(&segs, &r, 0, x0, y0); }
+        _ => {
+            // indefinite(): first piece untranslated (constant 0), the rest chained from (end_0, F_0(end_0))
+            let r = Piecewise { segments: segs.to_vec() }.indefinite();
+            assert!(r.segments.len() == N);
+            assert!(r.segments[0].poly.k == 0.0 && r.segments[0].poly.trans == 0, "[spec] indefinite(): the first piece's additive constant is zero");
+            assert!(r.segments[0].end.to_bits() == segs[0].end.to_bits() && r.segments[0].poly.id == 1);
+            // F_0(end_0) = 0 + id_0 = 1 ; logged as the first evaluation
+            unsafe { assert!(ILOG_ID[0] == 1 && ILOG_X[0] == segs[0].end.to_bits(), "[spec] the chain starts at the first piece's own end"); }
+            let mut i = 1;
+            let mut log = 1usize;
+            while i < N {
+                assert!(r.segments[i].end.to_bits() == segs[i].end.to_bits() && r.segments[i].poly.id == segs[i].poly.0, "[spec] same breakpoints and order");
+                assert!(r.segments[i].poly.k + r.segments[i].poly.id as f64 == 1.0, "[spec] adjacent pieces agree at the breakpoints");
+                unsafe {
+                    assert!(ILOG_ID[log] == segs[i].poly.0 && ILOG_X[log] == segs[i - 1].end.to_bits(), "[spec] piece i anchored at the previous breakpoint");
+                    assert!(ILOG_ID[log + 1] == segs[i].poly.0 && ILOG_X[log + 1] == segs[i].end.to_bits());
+                }
+                log += 2;
+                i += 1;
+            }
+        }
+    }
+    kani::cover!(true, "[cover] the end of the harness is reachable (assumptions are satisfiable)");
+}
+macro_rules! c11 { ($($name:ident, $n:expr, $w:expr, $u:expr;)*) => { $( #[kani::proof] #[kani::unwind($u)] fn $name() { c11_integral::<$n>($w) } )* } }
+c11! {
+    c11_integral_n1, 1, 0, 4; c11_integral_n2, 2, 0, 5; c11_integral_n3, 3, 0, 6; c11_integral_n4, 4, 0, 7;
+    c11_iter_ref_n1, 1, 1, 4; c11_iter_ref_n2, 2, 1, 5; c11_iter_ref_n3, 3, 1, 6; c11_iter_ref_n4, 4, 1, 7;
+    c11_iter_n1, 1, 2, 4; c11_iter_n2, 2, 2, 5; c11_iter_n3, 3, 2, 6; c11_iter_n4, 4, 2, 7;
+    c11_indefinite_n1, 1, 3, 4; c11_indefinite_n2, 2, 3, 5; c11_indefinite_n3, 3, 3, 6; c11_indefinite_n4, 4, 3, 7;
+}
+#[kani::proof]
+#[kani::unwind(3)]
+fn c11_empty() {
+    let p: Piecewise<STag> = Piecewise { segments: Vec::new() };
+    let y0 = small_int();
+    assert!(p.integral(Knot { x: 0.0, y: y0 }).segments.is_empty(), "[spec] empty input gives empty output");
+    assert!(p.indefinite().segments.is_empty(), "[spec] empty input gives empty output");
+    kani::cover!(true, "[cover] the end of the harness is reachable (assumptions are satisfiable)");
 }
